@@ -28,20 +28,20 @@ class ToolError(Exception):
 # view: which observation channels are compared between model and implementation
 # level: evidence level category
 PROPS = {
-    "C01": dict(extra=["enum"], profiles=["core", "alloc", "value"], level="proof"),
-    "C02": dict(extra=["enum"], profiles=["core", "iters"], level="proof"),
-    "C03": dict(extra=["enum"], profiles=["core", "value"], level="proof"),
-    "C04": dict(extra=["enum", "genwrap"], profiles=["core", "alloc"], level="proof"),
-    "C05": dict(extra=["enum"], profiles=["core", "alloc"], level="proof"),
-    "C06": dict(profiles=["alloc", "core"], level="proof", extra=["stamps", "genwrap"]),
-    "C07": dict(extra=["enum", "genwrap"], profiles=["alloc", "core"], level="proof"),
-    "C08": dict(extra=["enum", "genwrap"], profiles=["alloc", "core", "value"], level="proof"),
-    "C09": dict(profiles=["iters"], level="proof", props=["C09", "C09src"]),
+    "C01": dict(extra=["enum"], profiles=["core", "alloc", "value"], level="proof", props=["C01", "SRCrel", "SRCops", "SRCalloc"]),
+    "C02": dict(extra=["enum"], profiles=["core", "iters"], level="proof", props=["C02", "SRCrel", "SRCops", "SRCalloc", "SRCtrav"]),
+    "C03": dict(extra=["enum"], profiles=["core", "value"], level="proof", props=["C03", "SRCrel", "SRCops", "SRCalloc"]),
+    "C04": dict(extra=["enum", "genwrap"], profiles=["core", "alloc"], level="proof", props=["C04", "SRCrel", "SRCops", "SRCalloc"]),
+    "C05": dict(extra=["enum"], profiles=["core", "alloc"], level="proof", props=["C05", "SRCrel", "SRCops", "SRCalloc"]),
+    "C06": dict(profiles=["alloc", "core"], level="proof", extra=["stamps", "genwrap"], props=["C06", "SRCalloc", "SRCops"]),
+    "C07": dict(extra=["enum", "genwrap"], profiles=["alloc", "core"], level="proof", props=["C07", "SRCalloc", "SRCops"]),
+    "C08": dict(extra=["enum", "genwrap"], profiles=["alloc", "core", "value"], level="proof", props=["C08", "SRCalloc", "SRCops"]),
+    "C09": dict(profiles=["iters"], level="proof", props=["C09", "C09src", "SRCtrav"]),
     "C10": dict(profiles=["iters", "core"], level="proof", props=["C10", "C09src"]),
-    "C11": dict(profiles=["core", "alloc"], level="proof", extra=["selfcheck", "genwrap"]),
-    "C12": dict(extra=["enum", "genwrap"], profiles=["core", "alloc"], level="proof"),
-    "C13": dict(profiles=["value", "core"], level="proof", extra=["selfcheck", "determinism"]),
-    "C14": dict(profiles=["print"], level="proof", extra=["printdeep"]),
+    "C11": dict(profiles=["core", "alloc"], level="proof", extra=["selfcheck", "genwrap"], props=["C11", "SRCalloc"]),
+    "C12": dict(extra=["enum", "genwrap"], profiles=["core", "alloc"], level="proof", props=["C12", "SRCrel", "SRCops", "SRCalloc"]),
+    "C13": dict(profiles=["value", "core"], level="proof", extra=["selfcheck", "determinism"], props=["C13", "SRCalloc", "SRCops"]),
+    "C14": dict(profiles=["print"], level="proof", extra=["printdeep"], props=["C14", "SRCtrav"]),
     "C15": dict(profiles=[], level="proof", extra=["macro"]),
     "C16": dict(profiles=["serde"], level="proof"),
     "C17": dict(profiles=[], level="translation_validation", extra=["features"]),
@@ -55,7 +55,8 @@ TRUSTED_BASE = [
     "extraction: Require Extraction + ExtrOcamlBasic only (Extract Inductive for bool, option, unit, prod, list, sumbool, sumor, comparison); no Extract Constant; nat/N/Z/positive stay inductive",
     "OCaml 4.13.1 compiler, runner/driver.ml (parsing/printing glue)",
     "Rust harness /verif/harness (generator, executor, canonical printers), rustc/cargo, add-only hooks behind --cfg indextree_verif",
-    "tools/vlib.py (comparison, shrinking, verdict logic), tools/translate.py (C17/C18 inventories)",
+    "tools/vlib.py (comparison, shrinking, verdict logic), tools/translate.py (C17/C18 inventories, iterator closures)",
+    "rs2coq (Rust+syn translator, /verif/rs2coq): regenerates coq/gen/Gen{Stamp,Rel,Alloc,Ops,Trav}.v from the Rust sources on every run; the SRC_* theorems (coq/props/SRC*.v) prove them equal to the hand-written model; the translation rules (DESIGN.md 5.1b) are trusted",
 ]
 
 # ------------------------------------------------------------------------------------------
@@ -87,14 +88,29 @@ def workdir(pid):
 # ------------------------------------------------------------------------------------------
 # builds
 # ------------------------------------------------------------------------------------------
+BUILD_NOTES = []   # what the translator could not read and which Coq files no longer compile (for replay headers)
+
 def build_coq():
     """(re)generate inventories from /repo, then incremental full .vo build of the development."""
-    rc, out = sh([sys.executable, os.path.join(VERIF, "tools", "translate.py")], cwd=VERIF, timeout=120)
+    rc, out = sh([sys.executable, os.path.join(VERIF, "tools", "translate.py")], cwd=VERIF, timeout=900)
     if rc != 0:
         raise ToolError("translator failed:\n" + out[-2000:])
+    del BUILD_NOTES[:]
+    BUILD_NOTES.extend("source translator: " + l.strip() for l in out.splitlines() if l.startswith("rs2coq:") and "0 functions not translated" not in l)
     if not os.path.exists(os.path.join(COQ, "Makefile")):
         sh("coq_makefile -f _CoqProject -o Makefile", cwd=COQ, check=True, timeout=60)
-    rc, out = sh("timeout 3000 make -j%d" % NCPU, cwd=COQ, timeout=3100)
+    # make -k: files that do not depend on a broken one are still built.  A target that fails keeps its old
+    # .vo on disk; delete it (and, on the next round, whatever depended on it) so nothing stale is ever loaded.
+    out = ""
+    for _ in range(8):
+        rc, out = sh("timeout 3000 make -k -j%d" % NCPU, cwd=COQ, timeout=3100)
+        if rc == 0: break
+        stale = [t for t in re.findall(r"\*\*\* \[Makefile[^:]*:\d+: (\S+\.vo)\]", out) if os.path.exists(os.path.join(COQ, t))]
+        if not stale: break
+        for t in stale: os.remove(os.path.join(COQ, t))
+        for m in re.finditer(r'File "\./([^"]+)", line (\d+)[^\n]*\n((?:.*\n){1,6}?)(?=\n|make|COQC|File|$)', out):
+            note = "coq: %s:%s: %s" % (m.group(1), m.group(2), " ".join(m.group(3).split())[:300])
+            if note not in BUILD_NOTES: BUILD_NOTES.append(note)
     return rc == 0, out
 
 def build_runner():
@@ -559,7 +575,8 @@ def check(pid, tier, seed):
             hdr = []
             ops_l = ["# no failing input found"]
             if proof_broken:
-                hdr.append("theorems of %s no longer check: %s" % (proof["file"], (proof["log"] or "")[-600:].replace("\n", " | ")))
+                hdr.append("theorems of %s no longer check: %s" % (proof["file"], " | ".join(l for l in (proof["log"] or "").splitlines() if l.strip() and "Closed under" not in l)[-600:]))
+                for n in BUILD_NOTES[:8]: hdr.append(n)
                 for a in audit[:5]: hdr.append("audit: " + a)
             if diffs:
                 r, d = diffs[0]
